@@ -89,6 +89,19 @@ def object_events(entry, enc, tid0, rng, quick, run):
             if c2 != cws[i]:
                 tid += 1
                 evs.append({"ev": "Encode", "tid": tid, "m": fec.limbs(msgs[i], k), "c": fec.limbs(c2, n), "form": kind})
+    # the input tensor's form: a non-contiguous strided view, a transposed view, a leaf that requires grad
+    from .core import noncontiguous
+    for kind, Xf in (("strided view", noncontiguous(M[sub])), ("transposed view", M[sub].t().contiguous().t()), ("requires_grad", M[sub].clone().requires_grad_(True))):
+        try:
+            C2 = enc(Xf).detach()
+        except Exception:
+            continue            # an encoder may reject the form; only a different codeword counts
+        for j, i in enumerate(sub):
+            run.case((entry.name, "enc", msgs[i], kind), nontrivial=msgs[i] != 0)
+            c2 = fec.to_int(C2[j])
+            if c2 != cws[i]:
+                tid += 1
+                evs.append({"ev": "Encode", "tid": tid, "m": fec.limbs(msgs[i], k), "c": fec.limbs(c2, n), "form": kind})
     # words for the syndrome clause: codewords, single-bit perturbations, random words
     words = []
     sel = cws if len(cws) <= 64 else rng.sample(cws, 64)
